@@ -382,7 +382,7 @@ pub fn run(cfg: &Cfg, out: &mut Out) {
     let plans: Vec<(&str, &[(usize, Op)], Vec<Vec<Op>>, usize, usize)> = vec![
         ("commit|commit", &both_loaded, vec![vec![Commit], vec![Commit]], 1, 2000),
         ("commit|load", &diverged, vec![vec![Commit], vec![Load]], 1, if quick { 700 } else { 20000 }),
-        ("load|load", &diverged, vec![vec![Load], vec![Load]], 0, if quick { 500 } else { 20000 }),
+        ("load|load", &diverged, vec![vec![Load], vec![Load]], 0, if quick { 1000 } else { 20000 }),
         ("commit,load|commit", &both_loaded, vec![vec![Commit, Load], vec![Commit]], 0, if quick { 400 } else { 20000 }),
     ];
     for (label, setup, programs, max_crashes, budget) in plans {
@@ -395,7 +395,7 @@ pub fn run(cfg: &Cfg, out: &mut Out) {
     out.set_exhaustive(complete);
     out.note(format!("exhaustive schedule enumeration for 2 processes (≤1 crash where stated): {}", notes.join("; ")));
     let mut r = cfg.rng(14);
-    let rounds = cfg.n(4, 60);
+    let rounds = cfg.n(3, 60);
     for _ in 0..rounds {
         for (nops, np) in [(3usize, 2usize), (5, 2), (6, 3), (9, 3)] {
             for mode in [Mode::Seq, Mode::Working, Mode::Ineffective] {
